@@ -1574,7 +1574,7 @@ def rotate(obj, angle, **kwargs):
 
         # Then, rotate about the axis
         rot = math.radians(alpha)
-        new_ctrlpts = [[0.0 for _ in range(ncs.dimension)] for _ in range(len(ncs.ctrlpts))]
+        new_ctrlpts = [list(pt) for pt in ncs.ctrlpts]  # coordinates beyond the third stay as they are
         for idx, pt in enumerate(ncs.ctrlpts):
             new_ctrlpts[idx][0] = pt[0]
             new_ctrlpts[idx][1] = (pt[1] * math.cos(rot)) - (pt[2] * math.sin(rot))
@@ -1593,7 +1593,7 @@ def rotate(obj, angle, **kwargs):
 
         # Then, rotate about the axis
         rot = math.radians(alpha)
-        new_ctrlpts = [[0.0 for _ in range(ncs.dimension)] for _ in range(len(ncs.ctrlpts))]
+        new_ctrlpts = [list(pt) for pt in ncs.ctrlpts]  # coordinates beyond the third stay as they are
         for idx, pt in enumerate(ncs.ctrlpts):
             new_ctrlpts[idx][0] = (pt[0] * math.cos(rot)) - (pt[2] * math.sin(rot))
             new_ctrlpts[idx][1] = pt[1]
